@@ -716,7 +716,9 @@ void eb_mul_lodah(eb_t r, const eb_t p, const bn_t k) {
 		eb_curve_get_ord(n);
 		bits = bn_bits(n);
 
+		/* Reduce first: |k| + r must have exactly bits + 1 bits. */
 		bn_abs(t, k);
+		bn_mod(t, t, n);
 		bn_add(t, t, n);
 		bn_add(n, t, n);
 		dv_swap_sec(t->dp, n->dp, RLC_MAX(t->used, n->used),
